@@ -493,3 +493,40 @@ def r1b(cx):
             cx.violation(b.root, 'multi-byte-read', 'the buffer handed to read() is not a one-byte slice (slice::from_mut of a u8): more than the '
                          'current character/line can be consumed from a descriptor that the next command or `read` also reads',
                          loc=b.loc(t))
+
+
+@RS.rule('C18.R5', 'K-ORDER', 'here-document body: once the newline ending the delimiter line is consumed, nothing more is read from the input before the command runs')
+def r5(cx):
+    F = cx.F
+    fns = [f for f in F.bodies if Q.re.search(r'lex::heredoc::.*::here_doc_content::\{closure#0\}$', f)]
+    cx.require(len(fns) == 1, 'Lexer::here_doc_content not found')
+    b = F.bodies[fns[0]]
+    cx.fn(b.fn)
+
+    def reads_input(t):
+        for n in Q.callee_names(t):
+            if n.startswith('yash_syntax::parser::lex::') and (F.fns.get(n) or {}).get('async'):
+                return True
+        return False
+    readers = [(blk, t) for blk, t in b.calls() if reads_input(t)]
+    skips = [(blk, t) for blk, t in readers if Q.callee_is(t, [Q.re.compile(r'::skip_if$')])]
+    cx.require(len(skips) == 1, 'the skip_if(newline) call was not found in here_doc_content')
+    sblk = skips[0][0]
+    goals = [blk for blk, t in Q.find_calls(b, [Q.re.compile(r'OnceCell::<T>::set$')])]
+    cx.require(len(goals) == 1, 'the store of the finished here-document content was not found')
+    gblk = goals[0]
+    cx.site('%s: %d input-reading calls; newline consumed at %s; content stored at %s'
+            % (b.fn, len(readers), b.loc(skips[0][1]), b.loc(b.term(gblk))))
+    after = b.reachable(sblk, removed=set())
+    for blk, t in readers:
+        if blk == sblk:
+            continue
+        # reachable from the newline consumption without passing it again, and leads to the normal exit without passing it again
+        fwd = set()
+        for s in b.succ(sblk):
+            fwd |= b.reachable(s, removed={sblk})
+        if blk in fwd and gblk in b.reachable(blk, removed={sblk}):
+            cx.violation(b.root, 'read-after-delimiter-newline:%s' % pp.callee(t).split('::')[-1],
+                         'after consuming the newline that ends a here-document line the lexer calls %s, which peeks at the next '
+                         'character and so pulls the line FOLLOWING the delimiter into the lexer before the command runs: a command that '
+                         'reads the same input (`cat <<END; read x`) loses that line' % pp.callee(t), loc=b.loc(t))
